@@ -176,10 +176,13 @@ def with_probe(hist, i):
     return list(hist) + [{'k': k, 'lab': lab, 'fin': fin} for lab, k, fin in p]
 
 
-def cover_scripts(ctx, allow, depth, label, transitions=False):
+def cover_scripts(ctx, allow, depth, label, transitions=False, memory=0):
     """state cover (or transition cover) of the lock-step product graph, each
-    completed to a well-formed script by ScriptGen!Closure"""
+    completed to a well-formed script by ScriptGen!Closure; memory=1/2: the graph whose
+    states also remember the last one / two tokens (pair / triple cover of moves)"""
     cfg = lockstep_cfg(allow, depth, inv=False)
+    if memory:
+        cfg = cfg.replace('VIEW View', 'VIEW View%d' % memory)
     cfg = cfg.replace('INVARIANT PrintDone', 'ACTION_CONSTRAINT PrintTransCover' if transitions else 'INVARIANT PrintStateCover')
     res = tlc.run(ctx.workdir, 'SplitLockstep', cfg, workers=1, timeout=900, label=label, coverage=False)
     ctx.add_tlc(res, label + (' transition cover' if transitions else ' state cover'))
